@@ -5,7 +5,7 @@
 # On success stores it as /verif/seeded/<PROP>-<m>/ (patch.diff, demo.rs, meta.json, confirm.log).
 set -u
 PROP=$1; M=$2; CRATE=$3; TDIR=$4
-WT=/tmp/wt-$PROP; OUT=$WT/_out/$M
+WT=/tmp/${WTP:-wt}-$PROP; OUT=$WT/_out/$M
 export CARGO_TARGET_DIR=$WT/target CARGO_NET_OFFLINE=true RUST_BACKTRACE=0
 LOG=$OUT/confirm.log; : > $LOG
 cd $WT || exit 2
